@@ -208,6 +208,10 @@ EXT_CONSTS = {'numpy.inf': INF, 'math.inf': INF, 'numpy.Inf': INF, 'numpy.infty'
               'math.nan': ('const', 'nan')}
 
 
+_LIST_MUTATOR_NAMES = {'append', 'extend', 'insert', 'pop', 'remove', 'clear', 'sort', 'reverse', 'update', 'add',
+                       'discard', 'setdefault', 'popitem', 'appendleft', 'popleft'}
+
+
 def _is_trivial(fn: FuncInfo) -> bool:
     """Getter / setter / one-line static helper."""
     body = [s for s in fn.node.body if not (isinstance(s, ast.Expr) and isinstance(s.value, ast.Constant))]
@@ -1131,6 +1135,15 @@ class Explorer:
             recv = vals[0] if pre else (s2.env.get(f.param_names[0]) if (is_super and f.param_names) else None)
             args = vals[len(pre):len(pre) + len(arg_exprs)]
             kwargs = {k.arg or '**': v for k, v in zip(e.keywords, vals[len(pre) + len(arg_exprs):])}
+            # a mutator called on a local list display: the local no longer is the display it was built from
+            if isinstance(recv, TupleVal) and isinstance(recv_expr, ast.Name) and \
+                    isinstance(e.func, ast.Attribute) and e.func.attr in _LIST_MUTATOR_NAMES and \
+                    recv_expr.id in s2.env:
+                if e.func.attr == 'append' and len(args) == 1 and not kwargs:
+                    s2.env[recv_expr.id] = TupleVal(list(recv.items) + [args[0]], recv.kind)
+                else:
+                    occ = s2.next_occ(('mutated', recv_expr.id))
+                    s2.env[recv_expr.id] = atomv(('mutated', recv_expr.id, e.lineno, occ))
             out.extend(self.do_call(e, recv, args, kwargs, s2))
         return out
 
